@@ -147,7 +147,7 @@ def run(module: str, cfg: str, *, workers: int = 16, env: dict | None = None, ti
     """Run TLC on spec/<module>.tla with spec/<cfg>.  Returns a dict; raises TlcFailure on crashes / parse errors."""
     os.makedirs(WORK, exist_ok=True)
     meta = tempfile.mkdtemp(prefix="tlc-", dir=WORK)
-    cmd = ["timeout", str(timeout), "java", "-XX:+UseParallelGC", "-Xmx8g"] + (jvm or []) + [
+    cmd = ["timeout", str(timeout), "java", "-XX:+UseParallelGC", "-Xmx8g", "-Xss512m"] + (jvm or []) + [
         "-cp", JAVA_CP, "tlc2.TLC", "-workers", str(workers), "-metadir", meta, "-noGenerateSpecTE",
         "-config", cfg]
     if coverage:
